@@ -285,6 +285,13 @@ func (s *Stream) startConsume(consumer Consumer, packetType PacketType, extra st
 		c.sendGop(cache) // 新消费者，先发送gop缓存
 	}
 	cs.Add(c)
+	if atomic.LoadInt32(&s.status) != StreamOK {
+		// 流正在或已经关闭（close 先置状态再清理消费者）：自行移除并关闭，
+		// consume 协程随即退出并关闭 consumer
+		if cs.Remove(c.cid) != nil {
+			c.Close()
+		}
+	}
 
 	go c.consume()
 	return c.cid
